@@ -74,8 +74,125 @@ fn host_objects(ctx: &mut Ctx) {
     ctx.tag("kind:host-object");
 }
 
+/// The same program whichever way its text reaches the compiler: given as a text (`compile`), read from a file
+/// (`compile_file`, what `xeh -r file` does), or included by another text. What runs while the source is BUILT (meta
+/// blocks, `const`, immediate words) leaves nothing for reverse stepping to take back: the program is stepped to its
+/// end, all the way back (every state on the way is the one recorded going forward, the start is the start) and
+/// forward again.
+fn from_files(ctx: &mut Ctx, base: &Xstate) {
+    let dir = crate::lib_files(&ctx.scratch);
+    let cfg = GenCfg { endless: false, max_stmts: 4, ..GenCfg::default() };
+    let rounds = if ctx.thorough { 60 } else { 16 };
+    for round in 0..rounds {
+        let (a, b) = (ctx.rng.range(-9, 99), ctx.rng.range(0, 9));
+        let pre = match round % 8 {
+            0 => format!("#( {} const kf{} #)\nkf{} 1 +", a, b, b),
+            1 => format!("#( {} {} + #)", a, b),
+            2 => format!("#( {} {} #) drop", a, b),
+            3 => format!("#( [ {} {} ] #) drop #( {} const kk{} #)", a, b, b, b),
+            4 => format!(": im{} immediate drop ; #( {} #) {} im{}", b, a, b, b),
+            5 => format!("{} var fv{} #( 3 const kc #) kc ! fv{} fv{}", a, b, b, b),
+            6 => format!("#( {} #( {} 1 + #) * #)", a, b),
+            _ => String::new(),
+        };
+        let (prog, _) = gen_program(&mut ctx.rng, &cfg);
+        let text = format!("{}\n{}\n", pre, prog);
+        let path = format!("{}/c02-{}.xeh", dir, round);
+        std::fs::write(&path, &text).unwrap();
+        let routes: [(&str, Box<dyn Fn(&mut Xstate) -> Xresult>); 3] = [
+            ("compile", Box::new({ let t = text.clone(); move |xs: &mut Xstate| xs.compile(&t) })),
+            ("compile_file", Box::new({ let p = path.clone(); move |xs: &mut Xstate| xs.compile_file(p.as_str().into()) })),
+            ("include", Box::new({ let p = path.clone(); move |xs: &mut Xstate| xs.compile(&format!("include \"{}\"", p)) })),
+        ];
+        let mut trails: Vec<(String, Vec<String>)> = Vec::new();
+        for (route, build) in routes.iter() {
+            let mut xs = base.clone();
+            xs.intercept_stdout(true);
+            xs.set_recording_enabled(true);
+            xs.set_insn_limit(Some(INSN_LIMIT)).unwrap();
+            match crate::guarded(|| build(&mut xs)) {
+                Some(Ok(())) => {}
+                _ => { ctx.tag("files:build-error"); continue; }
+            }
+            let mut hist = vec![vmcanon::core_dump(&xs.verif_dump())];
+            let mut failed = false;
+            while xs.is_running() && hist.len() <= 80 {
+                match crate::guarded(|| xs.next()) { Some(Ok(())) => hist.push(vmcanon::core_dump(&xs.verif_dump())), _ => { failed = true; break; } }
+            }
+            // (a program whose last step failed is stepped back through the failed step first: compared with the model in
+            // `failing_steps`, not here)
+            if failed { ctx.tag("files:last-step-failed"); continue; }
+            let n = hist.len() - 1;
+            // back to the start, every state on the way
+            let mut bad: Option<String> = None;
+            for k in 1..=n {
+                let r = crate::guarded(|| xs.rnext());
+                let core = vmcanon::core_dump(&xs.verif_dump());
+                if !matches!(r, Some(Ok(()))) || core != hist[n - k] {
+                    bad = Some(format!("after {} steps back: {:?} {} (recorded going forward: {})", k, r.map(|r| r.is_ok()), core, hist[n - k]));
+                    break;
+                }
+            }
+            // … and forward again
+            if bad.is_none() {
+                for k in 1..=n {
+                    let r = crate::guarded(|| xs.next());
+                    let core = vmcanon::core_dump(&xs.verif_dump());
+                    if !matches!(r, Some(Ok(()))) || core != hist[k] {
+                        bad = Some(format!("replay step {}: {:?} {} (recorded the first time: {})", k, r.map(|r| r.is_ok()), core, hist[k]));
+                        break;
+                    }
+                }
+            }
+            ctx.check(bad.is_none(), || format!("C02 {} of `{}`: {} steps forward{}, all the way back, forward again", route, text.replace('\n', " \\n "), n, if failed { " (the last one failed)" } else { "" }),
+                || "every state on the way back and on the replay is the one recorded going forward".into(), || bad.clone().unwrap_or_default());
+            ctx.tag(&format!("files:{}", route));
+            // (the included text sits behind a different first instruction count only if `include` compiled code of its own: it does not)
+            trails.push((route.to_string(), hist));
+        }
+        // the three routes build the same program: same states step for step (sources and debug map are not part of the core dump)
+        if trails.len() == 3 {
+            let same = trails[0].1 == trails[1].1 && trails[0].1 == trails[2].1;
+            ctx.check(same, || format!("C02 `{}` compiled as a text, from a file and through include", text.replace('\n', " \\n ")), || format!("the same {} states", trails[0].1.len()),
+                || format!("compile {} states, compile_file {} states, include {} states; first difference at step {:?}", trails[0].1.len(), trails[1].1.len(), trails[2].1.len(),
+                    (0..trails[0].1.len().min(trails[1].1.len()).min(trails[2].1.len())).find(|&i| trails[0].1[i] != trails[1].1[i] || trails[0].1[i] != trails[2].1[i])));
+        }
+    }
+}
+
+/// programs whose last step FAILS (half-way through: operands popped, a frame pushed), then all the way back and
+/// forward again: always part of the run, compared with the model command for command (what a failed step leaves in the
+/// log is exactly what takes its partial effects back)
+fn failing_steps(ctx: &mut Ctx, base: &Xstate) {
+    for src in ["1 2 nil + 7", "1 0 / 5", "[ 1 2 ] 5 nth 9", "\"x\" 1 + 2", ": f nil 1 + ; 3 f 4", "3 0 do I 1 == if nil 1 + then I loop", "1 2 3 rot drop drop drop drop 8", "5 var v v nil * ! v v",
+        "[ 1 [ 2 nil + ] ]", "1 2 { 3 nil + }", "2 0 do 2 0 do J I + 2 == if \"s\" 0 / then loop loop", "false assert 1", "1 2 swap nil swap - 3", "|ff| open-bitstr u8 u8 7",
+        // … and a few that run through but whose steps are unusual: loops with nothing in them, jumps to themselves
+        "3 0 do loop 7", "0 0 do loop 1", "2 0 do 2 0 do loop loop 5", "[ 1 2 ] foreach loop 3", "0 begin 1 + dup 3 > until", "1 case endcase 2", "true if then false if else then 4", ": e ; e e 6"] {
+        let mut xs = match prepare(base, src, true) { Some(xs) => xs, None => { ctx.tag("failing-steps:build-error"); continue; } };
+        let setup = vmcanon::setup_str(&xs, (Some(INSN_LIMIT), None, None));
+        let mut script: Vec<&str> = Vec::new();
+        let mut answers: Vec<String> = Vec::new();
+        let mut fwd = 0usize;
+        let mut step = |xs: &mut Xstate, cmd: &'static str, script: &mut Vec<&str>, answers: &mut Vec<String>| -> Option<bool> {
+            let r = crate::guarded(|| if cmd == "n" { xs.next() } else { xs.rnext() });
+            script.push(cmd);
+            match r { Some(r) => { answers.push(format!("{}@{}", vmcanon::outcome(&r), vmcanon::full_dump(xs))); Some(r.is_ok()) } None => { answers.push("panic@".into()); None } }
+        };
+        let mut failed = false;
+        while fwd < 60 && xs.is_running() {
+            match step(&mut xs, "n", &mut script, &mut answers) { Some(true) => fwd += 1, Some(false) => { fwd += 1; failed = true; break; } None => break }
+        }
+        for _ in 0..fwd + 1 { if step(&mut xs, "r", &mut script, &mut answers).is_none() { break; } }
+        for _ in 0..fwd + 1 { if step(&mut xs, "n", &mut script, &mut answers).is_none() { break; } }
+        for _ in 0..2 { if step(&mut xs, "r", &mut script, &mut answers).is_none() { break; } }
+        ctx.tag(if failed { "failing-steps:failed" } else { "failing-steps:ran-through" });
+        ctx.case(format!("C02 vm {} view=full script={}", setup, script.join(",")), answers.join(" ; "));
+    }
+}
+
 pub fn run(ctx: &mut Ctx) {
     let base = Xstate::boot().unwrap();
+    failing_steps(ctx, &base);
     host_objects(ctx);
     long_rewind(ctx, &base);
     let cfg = GenCfg { endless: false, ..GenCfg::default() };
@@ -236,4 +353,5 @@ pub fn run(ctx: &mut Ctx) {
         ctx.tag(&format!("steps:{}", (hist.len() - 1) / 10 * 10));
         if !meta_prefix && reject_at.is_none() && reassert_at.is_none() { ctx.case(format!("C02 vm {} view=full script={}", setup, script.join(",")), answers.join(" ; ")); }
     }
+    from_files(ctx, &base);
 }
